@@ -20,6 +20,8 @@
   carried by the correspondence harness (guard zones, byte-exact image comparison, relocated copy).
 -/
 import QlibcModel.HashArr.WFCheckComplete
+import QlibcModel.HashArr.FaultSpec
+import QlibcModel.Shapes.Harr
 
 namespace Qlibc.Props.C07
 open Qlibc Qlibc.HashArr
@@ -28,9 +30,37 @@ open Qlibc Qlibc.HashArr
 theorem wf_init (cap : Nat) (h : 1 ≤ cap) : WF (init cap) := (wf_init' cap h).1
 
 /-- ... for every region size the constructor accepts -/
-theorem wf_initMem (memsize : Nat) (img : Img) (h : initMem memsize = some img) : WF img := by
-  obtain ⟨rfl, hc⟩ := initMem_eq memsize img h
+theorem wf_initMem (memsize : Nat) (hsz : memsize < 2 ^ 31 * Qlibc.Generated.HarrLayout.sizeofSlot) (img : Img)
+    (h : initMem memsize = some img) : WF img := by
+  obtain ⟨rfl, hc⟩ := initMem_eq memsize hsz img h
   exact wf_init _ hc
+
+/-- **the constructor is total in the region size** (`memsize > 0`, fewer than 2^31 slots so that the
+    `int maxslots` does not truncate): a region of at most `sizeof(qhasharr_t)` bytes — in particular one
+    smaller than the header, where the unsigned subtraction wraps — is refused (EINVAL) and nothing is
+    written (`none`: the model has no image to change); every larger region becomes the well-formed
+    empty table with `maxslots = (memsize − header) / slotsize`, and the image has exactly that many
+    slots (the bytes of the region, no others) -/
+theorem init_total (memsize : Nat) (hsz : memsize < 2 ^ 31 * Qlibc.Generated.HarrLayout.sizeofSlot) :
+    (memsize ≤ Qlibc.Generated.HarrLayout.sizeofHandle ∧ initMem memsize = none) ∨
+    (Qlibc.Generated.HarrLayout.sizeofHandle < memsize ∧
+      ∃ img, initMem memsize = some img ∧ WF img ∧ img.usedslots = 0 ∧ img.num = 0 ∧
+        img.maxslots = (((memsize - Qlibc.Generated.HarrLayout.sizeofHeader) / Qlibc.Generated.HarrLayout.sizeofSlot : Nat) : Int) ∧
+        img.n = (memsize - Qlibc.Generated.HarrLayout.sizeofHeader) / Qlibc.Generated.HarrLayout.sizeofSlot ∧
+        Qlibc.Generated.HarrLayout.sizeofHeader + Qlibc.Generated.HarrLayout.sizeofSlot * img.n ≤ memsize) := by
+  by_cases h : memsize ≤ Qlibc.Generated.HarrLayout.sizeofHandle
+  · exact Or.inl ⟨h, initMem_small memsize h⟩
+  · right
+    have hlt : Qlibc.Generated.HarrLayout.sizeofHandle < memsize := by omega
+    have he := initMem_large memsize hlt hsz
+    obtain ⟨_, hc⟩ := initMem_eq memsize hsz _ he
+    refine ⟨hlt, _, he, wf_init _ hc, rfl, rfl, rfl, (wf_init' _ hc).2, ?_⟩
+    rw [(wf_init' _ hc).2]
+    have hH : Qlibc.Generated.HarrLayout.sizeofHeader = 12 := rfl
+    have hS : Qlibc.Generated.HarrLayout.sizeofSlot = 84 := rfl
+    have hA : Qlibc.Generated.HarrLayout.sizeofHandle = 128 := rfl
+    rw [hH, hS]; rw [hA] at hlt
+    omega
 
 /-- `put` (all outcomes): never faults, result well-formed -/
 theorem wf_put (img : Img) (hw : WF img) (name data md5 : Bytes) (h32 : Nat) (hmd5 : md5.length = 16) :
@@ -56,6 +86,37 @@ theorem wf_remove_by_idx (img : Img) (hw : WF img) (idx : Int) :
 theorem remove_by_idx_out_of_range (img : Img) (idx : Int) (h : idx < 0 ∨ idx ≥ img.maxslots) :
     removeByIdx img idx = .ok (img, .err .EINVAL) := by
   unfold removeByIdx; rw [if_pos h]; rfl
+
+/-- **`getnext` is total in the index**: on a well-formed image it never faults whatever `*idx` is; a
+    negative index is rejected (EINVAL) and returned unchanged, an index at or behind the end answers
+    ENOENT without reading anything -/
+theorem getnext_total (img : Img) (hw : WF img) (idx : Int) :
+    (∃ r, getnext img idx = .ok r) ∧
+    (idx < 0 → getnext img idx = .ok (none, idx) ∧ getnextErrno idx = .EINVAL) ∧
+    ((img.n : Int) ≤ idx → getnext img idx = .ok (none, idx) ∧ getnextErrno idx = .ENOENT) := by
+  refine ⟨Qlibc.HashArr.getnext_total hw idx, fun h => ⟨getnext_neg img idx h, by simp [getnextErrno, h]⟩,
+    fun h => ⟨getnext_beyond hw idx h, ?_⟩⟩
+  have : ¬ idx < 0 := by omega
+  simp [getnextErrno, this]
+
+/-- **the documented-invalid calls are the identity on the image**: every call of the `inv` probe (NULL
+    table / name / data / object / index pointers, zero sizes, indexes outside the table, a NULL stream)
+    is answered EINVAL (EIO for the stream) and the image is returned unchanged; the two valid border
+    cases (NULL size pointer, NULL output pointers) answer like the plain calls -/
+theorem inv_identity (img : Img) (hw : WF img) (probe md5 : Bytes) (h32 : Nat) :
+    ∃ answers, invProbe img probe h32 md5 = .ok (img, answers) ∧
+      ∀ a ∈ answers, a.2 = "EINVAL" ∨ a.1 = "gbo:nosize" ∨ a.1 = "size:noout" ∨ a.1 = "debug:out" := by
+  obtain ⟨r, hr⟩ := get_total hw probe h32 md5
+  unfold invProbe
+  simp only [hr, bind, Except.bind, pure, Except.pure]
+  refine ⟨_, rfl, ?_⟩
+  have hmax : idxInvalid img img.maxslots = true := by simp [idxInvalid]
+  have hneg : idxInvalid img (-1) = true := by simp [idxInvalid]
+  intro a ha
+  simp only [List.mem_cons, List.mem_nil_iff, or_false] at ha
+  rcases ha with rfl | rfl | rfl | rfl | rfl | rfl | rfl | rfl | rfl | rfl | rfl | rfl | rfl | rfl | rfl | rfl | rfl |
+    rfl | rfl | rfl | rfl | rfl | rfl | rfl | rfl | rfl | rfl | rfl | rfl | rfl | rfl <;>
+    simp [einvalIf, putInvalid, keyInvalid, nextInvalid, hmax, hneg]
 
 /-- `clear` -/
 theorem wf_clear (img : Img) (hw : WF img) : ∃ img', clear img = .ok img' ∧ WF img' := by
